@@ -1193,6 +1193,16 @@ func c01NodeStage(c *Ctx, name string, cases []*c01Case, fragment bool) error {
 		if fragment {
 			if known[i] {
 				kn = "K-C01 (trig.c01.known)"
+			} else {
+				// a program outside the model (e.g. `!<literal>` directly after `<`) cannot be judged by the Lean guard:
+				// the syntactic triggers of the sweep apply (K1 `return a,b,undefined`, K2, K3)
+				var ids []string
+				for _, id := range c01SwClassify(b.cs.src) {
+					if c01OpenTriggers[id] && strings.HasPrefix(id, "K") {
+						ids = append(ids, id)
+					}
+				}
+				kn = strings.Join(ids, ",")
 			}
 		} else {
 			// only triggers of OPEN known findings count
@@ -1227,8 +1237,14 @@ func (cs *c01Case) cfg() string {
 // c01ClassifyExtra: syntactic triggers of known findings found after the sweep generator was written.
 // "S14-param-default-var": a function whose parameter list has a default value mentioning an identifier that the body of
 // the same function declares with `var` (parse/v2 binds the body's uses of that name to the outer variable).
+var c01ReYieldUndef = regexp.MustCompile(`\byield\s+\(*undefined\b`)
+
 func c01ClassifyExtra(src string) []string {
 	var out []string
+	// S17: `yield undefined` where `undefined` may be a captured local of an enclosing function
+	if c01ReYieldUndef.MatchString(src) && regexp.MustCompile(`\bfunction\b[^(]*\([^)]*\bundefined\b|\(([^()]*,)?\s*undefined\s*(,[^()]*)?\)\s*=>|\b(var|let|const)\s[^;]*\bundefined\s*[=,;]`).MatchString(src) {
+		out = append(out, "S17-yield-shadow-undefined")
+	}
 	isID := func(c byte) bool { return c == '_' || c == '$' || c >= '0' && c <= '9' || c >= 'a' && c <= 'z' || c >= 'A' && c <= 'Z' }
 	idents := func(t string) map[string]bool {
 		m := map[string]bool{}
